@@ -91,6 +91,12 @@ def sites_for(kind: str, offs, image: bytes, entry: int, all_values: bool, rng) 
     enc = (lambda s: akai_bytes(s, 12)) if kind == "akai" else (lambda s: (s.encode("ascii") + bytes(16))[:16])
     repl = [enc(x) for j, x in enumerate(names) if j != entry] + [enc(names[3][:-1] + "L"), enc(names[3][:-2] + " L")]
     sites.append(faults.Site(f"entry{entry}.byte0", [ranges[0][0] + k for k in range(n)], n, faults.uniq(repl)))
+    if kind == "akai":
+        # whole size field (3 bytes): sizes below / at / just above the 140-byte sample header
+        sites.append(faults.Site(f"entry{entry}.byte17", [ranges[0][0] + 17 + k for k in range(3)], 3,
+                                 [v.to_bytes(3, "little") for v in (0, 1, 100, 112, 139, 140, 141)]))
+        sites.append(faults.Site(f"entry{entry}.byte20", [ranges[0][0] + 20 + k for k in range(2)], 2,
+                                 [v.to_bytes(2, "little") for v in (0, 1, 3, 4, 9, 10, 11385, 11386, 65535)]))
     return sites
 
 
